@@ -268,7 +268,7 @@ def run(ctx):
     roots += [p for p in F.fns if p.endswith("execute::inner_") and p.startswith("<cairo_lang_parser::")]
     ctx.floor("front-end entry points", len(roots), 6)
     reach = cg.reachable(roots)
-    ctx.floor("functions reachable from the front-end entry points", len(reach), 300)
+    ctx.floor("functions reachable from the front-end entry points", len(reach), 200)
     for p in reach:
         ctx.analysed(p)
     wrappers = set()
@@ -309,7 +309,7 @@ def run(ctx):
         else:
             classes[have[1]] += n
     ctx.ob("R9.1", "inventory", True, "sites by class: %s" % dict(classes), "")
-    ctx.floor("panic-capable sites inventoried", sum(inv.values()), 80)
+    ctx.floor("panic-capable sites inventoried", sum(inv.values()), 50)
 
     # ---------------- R9.2 take precondition (typestate of the look-ahead)
     exc = {}
@@ -421,13 +421,13 @@ def _progress(ctx, names):
     from .guards import natural_loops
     F = ctx.load(["cairo_lang_parser", "cairo_lang_syntax"])
     TK = [n for n in names if n.startswith("Terminal")]
-    ctx.floor("terminal kinds", len(TK), 80)
+    ctx.floor("terminal kinds", len(TK), 60)
     ai = A.ParserAI(F, names)
     pf = {p: f for p, f in F.fns.items() if f.body and f.crate == "cairo_lang_parser"}
 
     # R9.4 a list element parser never reports success (or "already skipped") without having consumed a token
     elems = A.element_parsers(F, pf)
-    ctx.floor("list element parsers handed to the list routines", len(elems), 18)
+    ctx.floor("list element parsers handed to the list routines", len(elems), 12)
     for e in sorted(elems):
         users = sorted(set(u or "?" for _, u in elems[e]))
         plain_list = any(u in ("parse_list", "parse_attributed_list") for u in users)
@@ -502,7 +502,7 @@ def _progress(ctx, names):
     tkf = F.find1("cairo_lang_parser::lexer::", name="token_kind_to_terminal_syntax_kind")
     LK = sorted({st[2][4] for _, _, st in tkf.stmts() if st[0] == "a" and st[2][0] == "agg" and st[2][1] == "adt"
                  and st[2][2].endswith("kind::SyntaxKind")})
-    ctx.floor("terminal kinds the lexer can produce", len(LK), 70)
+    ctx.floor("terminal kinds the lexer can produce", len(LK), 60)
     ppf = {p: f for p, f in pf.items() if p.startswith(PARSER)}
     callers = defaultdict(set)
     for p, f in ppf.items():
@@ -577,7 +577,7 @@ def _progress(ctx, names):
                    "%s panics when entered with %d of the %d kinds (e.g. %s); in %s it is reached only with the other kinds, from the entry, after every consuming call and from every loop head" % (
                        last_seg(g), len(ks), len(LK), sorted(ks)[:2], last_seg(q)) if not bad else
                    "%s panics on %s and is reached with that kind in %s (from line %s)" % (last_seg(g), sorted(bad)[:4], last_seg(q), sorted(bad.values())[0]), f.where())
-    ctx.floor("call relations into routines that panic for some kinds", n_sites, 3)
+    ctx.floor("call relations into routines that panic for some kinds", n_sites, 2)
     ctx.notes.append("R9.9: routines that panic for some kinds on an unchanged look-ahead: %s" % {last_seg(g): len(ks) for g, ks in panicking.items()})
 
     # R9.7 / R9.8 the same interpreter over the lexer: the look-ahead is the next character
@@ -606,7 +606,7 @@ def _progress(ctx, names):
                        if not new else "the loop can go round without taking a character: " + "; ".join(
                            "next character %r via %s" % (chr(key[1]) if isinstance(key[1], int) else key[1], " > ".join(v[2][-5:])) for key, v in new[:3]),
                        f.where(A._line(f, h)))
-    ctx.floor("loops of the lexer", n_lloops, 3)
+    ctx.floor("loops of the lexer", n_lloops, 2)
     mt = F.find1("cairo_lang_parser::lexer::Lexer", name="match_terminal")
     ctx.analysed(mt)
     bad = []
